@@ -2,7 +2,7 @@
 # build_corpus_parallel.sh K: K builders side by side, each on its own snapshot of /verif (HEAD) and of /repo (HEAD)
 # and its own cache directory under /root/.cache/corpusw; the corpus files are merged into /verif/corpus at the end.
 K=${1:-4}; W=/root/.cache/corpusw
-rm -rf $W; mkdir -p $W
+git -C /verif worktree prune; git -C /repo worktree prune; rm -rf $W; mkdir -p $W
 for i in $(seq 0 $((K-1))); do
   git -C /verif worktree add -q --detach $W/v$i HEAD
   git -C /repo worktree add -q --detach $W/r$i HEAD
